@@ -203,4 +203,15 @@ META = {
                             "feature_bare_use": 200, "feature_overridden_member": 30, "feature_bound_or_constrained_typevar": 30, "distinct_nontrivial": 2500}},
         assumptions=["pool types are pairwise disjoint under strict coercion on JSON data (int, str, bool, List[int], Dict[str, str], None), so rejection identifies the substitution"],
     ),
+    "C17": _m(
+        "one case = one logical model (1-6 fields of portable types int/str/bool/float/List/Optional/Dict[str, .], value and factory defaults) materialised as dataclass, "
+        "NamedTuple, TypedDict, attrs, pydantic, SQLAlchemy (+ a plain __init__ class for loading) x one recipe (default / name_style / map renames / skip of an optional "
+        "field) x inputs (full, optional absent, extra key; ill-typed fields, missing required key, non-mapping, two faults) x dumps x converters between 8 sampled "
+        "(thorough: all 30) ordered kind pairs. Oracle: six-way differential on field-wise views, dumped data and error signatures (class names + trails); documented "
+        "per-kind limitations are capabilities (no constructor-time defaults for TypedDict / SQLAlchemy, pydantic's own validation). distinct = (logical model, recipe, "
+        "input, kind); non-trivial = a kind other than the reference kind",
+        cases=(40, 800), budget=(50, 420),
+        minimums={"quick": {"logical_models": 250, "loads": 4000, "bad_loads": 5000, "dumps": 1200, "converters": 1500, "distinct_nontrivial": 8000}},
+        assumptions=["kinds are compared with each other, not with a reference model; a defect shared by all kinds is invisible here (C03/C08 cover it)"],
+    ),
 }
